@@ -210,4 +210,50 @@ theorem busPos_map (ρ : Idx → Idx) (hρ : Function.Injective ρ) (ids : List 
     have hb : (ρ a == ρ i) = (a == i) := by rw [Bool.eq_iff_iff]; simp [hρ.eq_iff]
     simp [List.idxOf_cons, hb, ih]
 
+theorem busPos_map' (ρ : Idx → Idx) (hρ : Function.Injective ρ) {β : Type} (bs : List (Idx × β)) (i : Idx) :
+    busPos ((bs.map (fun b => (ρ b.1, b.2))).map (·.1)) (ρ i) = busPos (bs.map (·.1)) i := by
+  have := busPos_map ρ hρ (bs.map (·.1)) i
+  rw [List.map_map] at this
+  rw [List.map_map]
+  exact this
+
+/-- the same network with every index renamed by `ρ` (e.g. numbers ↔ strings) -/
+def renameNet (ρ : Idx → Idx) (net : Net ℝ) : Net ℝ :=
+  { sb := net.sb
+    buses := net.buses.map (fun b => (ρ b.1, b.2))
+    pqs := net.pqs.map (fun e => { e with bus := ρ e.bus })
+    pvs := net.pvs.map (fun e => { e with bus := ρ e.bus })
+    slacks := net.slacks.map (fun e => { e with bus := ρ e.bus })
+    shunts := net.shunts.map (fun e => { e with bus := ρ e.bus })
+    lines := net.lines.map (fun e => { e with bus1 := ρ e.bus1, bus2 := ρ e.bus2 })
+    islanded := net.islanded }
+
+/-- in-band operation and well-formed branch data -/
+structure RNet.Normal (r : RNet ℝ) : Prop where
+  line_u : ∀ e ∈ r.lines, e.d.u = 0 ∨ e.d.u = 1
+  line_tap : ∀ e ∈ r.lines, e.d.tap ≠ 0
+  pq_band : ∀ e ∈ r.pqs, e.z.zi = 1 ∧ e.z.zl = 0 ∧ e.z.zu = 0
+
+/-- every branch has the same shunt at both ends (the case in which the to-side equations are right) -/
+def RNet.SymShunts (r : RNet ℝ) : Prop := ∀ e ∈ r.lines, e.d.g1 = e.d.g2 ∧ e.d.b1 = e.d.b2
+
+open Complex in
+/-- complex power leaving bus `k` into the devices described by the input data, minus the generation
+there: loads `u(p0 + j q0)`, shunts `u v² conj(g + jb)`, both ends of every branch by the complex π-model,
+`PV` generation `u(p0 + j q)`, `Slack` generation `u(p + j q)` -/
+noncomputable def Sbus (r : RNet ℝ) (y : List ℝ) (k : Nat) : ℂ :=
+  (r.pqs.map (fun e => if e.pos = k then (((e.d.u * e.d.p0 : ℝ) : ℂ) + ((e.d.u * e.d.q0 : ℝ) : ℂ) * I) else 0)).sum +
+  (r.pvs.zipIdx.map (fun ek => if ek.1.pos = k then
+      -(((ek.1.d.u * ek.1.d.p0 : ℝ) : ℂ) + ((ek.1.d.u * yAt y (r.qPV ek.2) : ℝ) : ℂ) * I) else 0)).sum +
+  (r.slacks.zipIdx.map (fun ek => if ek.1.pos = k then
+      -(((ek.1.d.u * yAt y (r.pSl ek.2) : ℝ) : ℂ) + ((ek.1.d.u * yAt y (r.qSl ek.2) : ℝ) : ℂ) * I) else 0)).sum +
+  (r.shunts.map (fun e => if e.pos = k then
+      ((e.d.u * yAt y (r.nb + e.pos) ^ 2 : ℝ) : ℂ) * starRingEnd ℂ ((e.d.g : ℂ) + (e.d.b : ℂ) * I) else 0)).sum +
+  (r.lines.map (fun e => if e.p1 = k then
+      Sfrom (phasor (yAt y (r.nb + e.p1)) (yAt y e.p1)) (phasor (yAt y (r.nb + e.p2)) (yAt y e.p2))
+        (phasor e.d.tap e.d.phi) (yser e.d) (yh e.d) else 0)).sum +
+  (r.lines.map (fun e => if e.p2 = k then
+      Sto (phasor (yAt y (r.nb + e.p1)) (yAt y e.p1)) (phasor (yAt y (r.nb + e.p2)) (yAt y e.p2))
+        (phasor e.d.tap e.d.phi) (yser e.d) (yk e.d) else 0)).sum
+
 end Andes.PFlow
